@@ -36,6 +36,7 @@ func runC10(c *Ctx) {
 	ruleStripQuotes(c, "C10.10")
 	ruleCurOncePerNext(c, "C10.11")
 	rulePresenceFlags(c, "C10.12")
+	ruleEOFJudgedByParse(c, "C10.13")
 }
 
 // ---- C10.1 --------------------------------------------------------------------
